@@ -37,6 +37,7 @@ ND_FIELDS = dict(shape=I, dtype=I, base=I, layout=I, val=R, writeable=B)
 
 # uninterpreted helpers shared by contracts
 NDIM = z3.Function("NDIM", I, I)  # number of dimensions of a shape id
+STRIDES_EQ = z3.Function("STRIDES_EQ", I, I, I, I, z3.BoolSort())
 BSHAPE = z3.Function("BSHAPE", I, I, I)  # broadcast of two shape ids
 RFUN = z3.Function("RFUN", R, I, I, R)  # value of reduce_broadcast(grad(val, shape), var_shape)
 CLAYOUT = z3.Function("CLAYOUT", I, I)  # the C-contiguous layout id of a shape
@@ -205,7 +206,9 @@ class _Strides:
     def __sym_eq__(self, interp, other):
         if not isinstance(other, _Strides):
             return False
-        return z3.And(self.shape == other.shape, self.layout == other.layout)
+        # equal shapes: strides are equal iff the layouts are; different shapes may still have equal stride tuples
+        # (e.g. C-ordered (1,3) and (2,3)): unknown, an uninterpreted predicate
+        return z3.If(self.shape == other.shape, self.layout == other.layout, STRIDES_EQ(self.shape, self.layout, other.shape, other.layout))
 
 
 class TensorModel:
